@@ -450,7 +450,11 @@ def frame_goal(ip: Interp, pre_heap: Dict[str, Any], post_heap: Dict[str, Any], 
     return goals
 
 
-def verify_function(target: str, only: Optional[str] = None, timeout_ms: Optional[int] = None) -> FnResult:
+def verify_function(target: str, only: Optional[str] = None, timeout_ms: Optional[int] = None,
+                    bound: Optional[int] = None) -> FnResult:
+    """bound=None: the unbounded proof attempt.  bound=k: small-scope refutation search (every
+    symbolic-length list/dict iterated over has at most k entries; results are only used to turn an
+    *undecided* obligation into a *refuted* one with a concrete counter-model, never to discharge)."""
     t0 = time.time()
     res = FnResult(target)
     con = CONTRACTS[target]
@@ -461,6 +465,8 @@ def verify_function(target: str, only: Optional[str] = None, timeout_ms: Optiona
         res.source_lines = (fn.__code__.co_filename, node.lineno, getattr(node, 'end_lineno', node.lineno))
         st = State(reg)
         shared = {'inlined': set(), 'contracts_used': set(), 'paths': 0, 'prune_checks': 0}
+        if bound is not None:
+            shared['bound'] = bound
         ip = Interp(reg, st, PathCtl(), shared)
         ip.top_target = target
         params = make_params(ip, con, fn)
@@ -545,7 +551,7 @@ def verify_function(target: str, only: Optional[str] = None, timeout_ms: Optiona
         res.inlined = sorted(shared['inlined'] - {target})
         res.contracts_used = sorted(shared['contracts_used'])
         comp_lemmas = congruence_lemmas(ip, shared)
-        discharge(res, obligations, timeout_ms or con.timeout_ms, only, comp_lemmas)
+        discharge(res, obligations, timeout_ms or con.timeout_ms, only, comp_lemmas, small_scope=bound is not None)
     except Unsupported as u:
         res.unsupported = str(u)
     except Exception:
@@ -718,6 +724,32 @@ def seed_terms(formulas, limit=400):
     return out
 
 
+def scope_bounds(formulas, bound=2):
+    """length terms (select L_len / D_n arrays at ground indices) bounded by `bound`."""
+    out = {}
+    seen = set()
+
+    def walk(e):
+        i = e.get_id()
+        if i in seen:
+            return
+        seen.add(i)
+        if z3.is_quantifier(e):
+            walk(e.body())
+            return
+        if not z3.is_app(e):
+            return
+        if e.decl().kind() == z3.Z3_OP_SELECT and e.sort() == I and not has_var(e):
+            a = e.arg(0)
+            if a.sort() in (E.sorts.LLen, E.sorts.DN) and z3.is_const(a) and str(a).endswith('@0'):
+                out[i] = e <= bound
+        for c in e.children():
+            walk(c)
+    for f in formulas:
+        walk(f)
+    return list(out.values())
+
+
 _HV: Dict[int, Any] = {}
 
 
@@ -738,7 +770,7 @@ def has_var(e) -> bool:
     return r
 
 
-def discharge(res: FnResult, obligations: List[Obligation], timeout_ms: int, only, lemmas):
+def discharge(res: FnResult, obligations: List[Obligation], timeout_ms: int, only, lemmas, small_scope=False):
     groups: Dict[str, List[Obligation]] = {}
     for ob in obligations:
         if only and only not in ob.name:
@@ -772,20 +804,21 @@ def discharge(res: FnResult, obligations: List[Obligation], timeout_ms: int, onl
             if r == z3.unknown:
                 seeds = seed_terms(list(ob.pc) + [ob.goal])
                 if seeds:
+                    s.set('timeout', min(timeout_ms, 3000))
                     s.add(*seeds)
                     r = s.check()
                     res.nqueries += 1
-            if r == z3.unknown:
-                # a false goal under quantified hypotheses answers unknown with MBQI off: retry with MBQI
+            if r == z3.unknown and small_scope:
+                # few quantifiers are left in small-scope mode: model-based instantiation can decide
                 s2 = z3.Solver()
-                s2.set('timeout', min(timeout_ms, 8000))
+                s2.set('timeout', min(timeout_ms, 5000))
                 s2.add(*ob.pc)
                 s2.add(*lemmas)
                 s2.add(z3.Not(ob.goal))
-                r = s2.check()
+                r2 = s2.check()
                 res.nqueries += 1
-                if r == z3.sat:
-                    s = s2
+                if r2 != z3.unknown:
+                    s, r = s2, r2
             t_solver += time.time() - t1
             if r == z3.unsat:
                 continue
